@@ -2,7 +2,7 @@
    Restates Proofs/DriverReportRun.report_run (driver model: coq/Model/Driver.v; stop tests: Generated/StopTests.v). *)
 From Coq Require Import List ZArith Bool String Lia Floats.PrimFloat.
 From LBFGSB Require Import Base.Res Base.Hoare Base.FloatOrd Model.SF Model.FloatVec Model.Driver Generated.StopTests Generated.Consts
-  Proofs.DriverReport Proofs.DriverReportRun.
+  Proofs.DriverReport Proofs.DriverReportRun Proofs.DriverFuel.
 Import ListNotations.
 Open Scope Z_scope.
 
@@ -39,6 +39,18 @@ Section C04.
       + intros Hs. destruct (rp_success _ _ _ _ R Hs) as [E|(_ & E)]; [exact E|contradiction].
       + exact (rp_abnormal _ _ _ _ R).
   Qed.
+
+  (* The model's loop fuel suffices: when the user's callables answer (a value or an exception; OutOfFuel is an error value of
+     the model that no Python callable can produce) a run NEVER ends in the model's out-of-fuel value - the while loop makes at
+     most maxiter - nit0 passes.  So the theorems stated for runs that return or raise cover every run. *)
+  Theorem C04_fuel_suffices :
+    (forall p, uf U p <> OutOfFuel) -> (forall p, ug U p <> OutOfFuel) -> (forall p v vs, fd_est U p v vs <> OutOfFuel) ->
+    (forall cb s, u_cb U = Some cb -> cb s <> OutOfFuel) ->
+    (forall u x f fo g X G, u_upd U = Some u -> u x f fo g X G <> OutOfFuel) ->
+    (forall sc x g l u, u_scaler U = Some sc -> sc x g l u <> OutOfFuel) ->
+    u_ftarget U <> OutOfFuel -> u_gtol U <> OutOfFuel ->
+    fst (run U K c) <> OutOfFuel.
+  Proof. exact (fuel_suffices U K c). Qed.
 End C04.
 
 (* the messages of the model are the strings of the source (Generated/Consts.v is rewritten from main.py on every run) *)
@@ -57,6 +69,7 @@ Theorem C04_control_flow_from_source :
 Proof. repeat split; reflexivity. Qed.
 
 Print Assumptions C04_report.
+Print Assumptions C04_fuel_suffices.
 Print Assumptions C04_documented.
 Print Assumptions C04_messages_from_source.
 
